@@ -89,7 +89,7 @@ func (h *harness) runFaults(n int) {
 	o := h.o
 	g := h.g
 	t0 := time.Now()
-	e, err := newE2E(h, 400*time.Millisecond)
+	e, err := newE2E(h, 400*time.Millisecond, o.Seed%2 == 1)
 	if err != nil {
 		o.Violate(-1, "e2e-setup", "", fmt.Sprintf("session over scripted nodes could not be opened: %v", err), nil)
 		return
